@@ -910,6 +910,16 @@ class WorldImpl(World):
                     raise ConnectionResetError(e, os.strerror(e))
                 raise TimeoutError(e, os.strerror(e))
         try:
+            if sock.gettimeout() != 0.0:
+                # recv() on a blocking / timeout socket with nothing to read: the event-loop thread would wait
+                # for the peer, and nobody runs meanwhile (same model as for send, see sut_send)
+                import select as _select
+                if not _select.select([sock.fileno()], [], [], 0)[0]:
+                    t = sock.gettimeout()
+                    self.blocked.append((role, 'recv', t))
+                    self.log(role, 'sut_recv_blocks_event_loop', t)
+                    self.now += (t if t is not None else 3600.0)
+                    raise socket.timeout('timed out')
             d = _c_recv(sock, n, *flags)
         except OSError as e:
             self.log(role, 'sut_recv_exc', e.errno)
